@@ -433,7 +433,38 @@ where
         commit: Option<CommitHash>,
         checkpoint: CommitProof,
     ) -> Result<Diff<T>, Self::Error> {
-        let patch = self.diff_events(commit.as_ref()).await?;
+        // The checkpoint is the head of the other log so it
+        // gives the position of the commit; looking for the hash
+        // finds the wrong record when an event occurs twice
+        let position = match (&commit, self.tree.leaves()) {
+            (Some(commit), Some(leaves))
+                if checkpoint.len() > 0
+                    && leaves.get(checkpoint.len() - 1)
+                        == Some(commit.as_ref()) =>
+            {
+                Some(checkpoint.len())
+            }
+            _ => None,
+        };
+        let patch = match position {
+            Some(position) => {
+                let wanted = self.tree.len() - position;
+                let mut records = Vec::with_capacity(wanted);
+                {
+                    let stream = self.record_stream(true).await;
+                    pin_mut!(stream);
+                    while records.len() < wanted {
+                        match stream.next().await {
+                            Some(record) => records.push(record?),
+                            None => break,
+                        }
+                    }
+                }
+                records.reverse();
+                Patch::new(records)
+            }
+            None => self.diff_events(commit.as_ref()).await?,
+        };
         Ok(Diff::<T> {
             last_commit: commit,
             patch,
